@@ -412,3 +412,43 @@ func (ex *Exec) zero(t types.Type) Term {
 	ex.d.declConst(cn, s)
 	return mk(s, cn)
 }
+
+// heapSortByName reconstructs the sort of a heap from its name.
+func (ex *Exec) heapSortByName(name string) string {
+	switch {
+	case strings.HasPrefix(name, "S$"):
+		es := strings.TrimPrefix(name, "S$")
+		return arraySort(SInt, arraySort(SInt, es))
+	case strings.HasPrefix(name, "P$"):
+		return arraySort(SInt, strings.TrimPrefix(name, "P$"))
+	case name == "W$total":
+		return arraySort(SVal, SStr)
+	case strings.HasPrefix(name, "M$has$"), strings.HasPrefix(name, "M$val$"):
+		parts := strings.SplitN(name[6:], "$", 2)
+		if len(parts) == 2 {
+			if strings.HasPrefix(name, "M$has$") {
+				return arraySort(SInt, arraySort(parts[0], SBool))
+			}
+			return arraySort(SInt, arraySort(parts[0], parts[1]))
+		}
+	case strings.HasPrefix(name, "F$"):
+		// F$<struct key>$<field>
+		rest := name[2:]
+		i := strings.LastIndex(rest, "$")
+		if i < 0 {
+			return ""
+		}
+		t := ex.w.lookupType(rest[:i])
+		if t == nil {
+			return ""
+		}
+		if st := structOf(t); st != nil {
+			for k := 0; k < st.NumFields(); k++ {
+				if st.Field(k).Name() == rest[i+1:] {
+					return arraySort(SInt, ex.w.sortOf(st.Field(k).Type(), ex.d))
+				}
+			}
+		}
+	}
+	return ""
+}
